@@ -11,8 +11,8 @@ Section Subset.
   Variable kind : Tok -> N.
   Variable eof_tok : Tok.
   Let eof : N := kind eof_tok.
-  Variable hstart hend : N -> nat -> St -> option St.
-  Variable helem : N -> nat -> elem -> Tok -> St -> option St.
+  Variable hstart hend : N -> nat -> St -> St * bool.
+  Variable helem : N -> nat -> elem -> Tok -> St -> St * bool.
 
   Notation hexpect_elems := (hexpect_elems Tok St kind eof_tok helem).
   Notation hexpect := (hexpect Tok St kind eof_tok hstart hend helem).
@@ -37,10 +37,10 @@ Section Subset.
     - inversion H; subst. eexists. reflexivity.
     - destruct e as [t|s'].
       + rewrite cur_map. destruct (N.eqb (kind (hcur Tok eof_tok ts)) t); [|discriminate].
-        destruct (helem s i (T t) (hcur Tok eof_tok ts) st) as [st2|]; [|discriminate].
+        destruct (helem s i (T t) (hcur Tok eof_tok ts) st) as [st2 [|]]; [|discriminate].
         rewrite adv_map. eapply IH. exact H.
       + destruct (hrec s' ts st) as [ts1 st1| | |] eqn:Er; try discriminate.
-        destruct (helem s i (NT s') (hcur Tok eof_tok ts) st1) as [st2|]; [|discriminate].
+        destruct (helem s i (NT s') (hcur Tok eof_tok ts) st1) as [st2 [|]]; [|discriminate].
         destruct (Hrec _ _ _ _ _ Er) as [tr1 Hr1]. rewrite Hr1.
         destruct (IH _ _ _ _ H) as [tr2 Hr2]. rewrite Hr2. eexists. reflexivity.
   Qed.
@@ -54,9 +54,9 @@ Section Subset.
     destruct a as [|[t|s'] es].
     - inversion H; subst. eexists. reflexivity.
     - rewrite cur_map. destruct (N.eqb (kind (hcur Tok eof_tok ts)) t) eqn:E.
-      + unfold HookParser.hexpect in H. destruct (hstart s i st) as [st1|]; [|discriminate].
+      + unfold HookParser.hexpect in H. destruct (hstart s i st) as [st1 [|]]; [|discriminate].
         destruct (hexpect_elems hrec s i (T t :: es) ts st1) as [ts' st2| | |] eqn:Ee; try discriminate.
-        destruct (hend s i st2) as [st3|]; [|discriminate]. inversion H; subst.
+        destruct (hend s i st2) as [st3 [|]]; [|discriminate]. inversion H; subst.
         destruct (hexpect_elems_subset hrec rec s i Hrec _ _ _ _ _ Ee) as [tr Ht]. rewrite Ht. eexists. reflexivity.
       + eapply IH. exact H.
     - discriminate.
